@@ -17,7 +17,7 @@ RULE = ("all strings over ACGT with 1<=n<=N (N=6 quick, 8 thorough) x modes {lin
         "(n<=4) which must raise")
 ASSUMPTIONS = ["input residue graphs have the shape polyply's own sequence readers produce: integer node keys "
                "0..n-1 in order, resid = key + offset + 1",
-               "gen_params -dsdna .itp view is checked in C19's program-level part only for n<=3 (see evidence key programs)"]
+               "the gen_params -dsdna .itp view is checked for all sequences with n<=3 (evidence key 'programs')"]
 BUDGET = {"quick": 240, "thorough": 1500}
 
 WC = {"A": "T", "T": "A", "G": "C", "C": "G"}
@@ -32,6 +32,7 @@ def cases(tier):
         step = 64
         for i in range(0, len(seqs), step):
             yield {"n": n, "seqs": seqs[i:i + step], "tier": tier}
+    yield {"prog": True, "tier": tier}
 
 
 def names_for(seq, mode):
@@ -169,7 +170,50 @@ def check_reject(seq, mode, pos, unk):
                  message=f"names {names} accepted, result {[mm.nodes[k]['resname'] for k in mm.nodes]}", detail={})]
 
 
+def check_program(case):
+    """gen_params -dsdna on files: the written .itp lists the strand and its complement"""
+    from .. import ffmodel as F, gp_harness as H
+    blocks = {nm: dict(nrexcl=1, atoms=[("BB", "D" + nm[1:], 0.0, 72.0, 1)], inter={})
+              for nm in ["DA", "DT", "DG", "DC", "DA5", "DT5", "DG5", "DC5", "DA3", "DT3", "DG3", "DC3"]}
+    link = dict(resname=list(blocks), inter={"bonds": [F.I(["BB", "+BB"], ["1", "0.3", "50"])]})
+    ff_text = F.render_ff(dict(blocks=blocks, links=[link], mods={}))
+    viols, evals, keys = [], 0, []
+    for n in (1, 2, 3):
+        for seq in itertools.product("ACGT", repeat=n):
+            seq = "".join(seq)
+            for mode in ("ter", "plain"):
+                if mode == "ter" and n < 2:
+                    continue
+                names = names_for(seq, mode)
+                evals += 1
+                case1 = {"prog": True, "seq": seq, "mode": mode}
+                with H.tempdir() as d:
+                    r = H.run_gen_params(d, [("dna.ff", ff_text)], seq=[f"{nm}:1" for nm in names], dsdna=True)
+                    if r["exc"] is not None:
+                        from ..runner import crash_violation
+                        viols.append(crash_violation(r["exc"], case1, assertion="gen_params-dsdna-accepts-valid-strand"))
+                        continue
+                    itp = H.read_itp_plain(r["itp_path"])
+                got = [(a["resid"], a["resname"]) for a in itp["atoms"]]
+                want = [(i + 1, nm) for i, nm in enumerate(names)] + [(n + k, ref_complement_name(names[n - k])) for k in range(1, n + 1)]
+                if got != want:
+                    viols.append(dict(assertion="dsdna-itp-lists-strand-and-complement", tags=[], message=f"-seq {names} -dsdna: residues {got} expected {want}", case=case1, detail={}))
+                bonds = sorted(tuple(sorted(int(x) for x in tok[:2])) for tok, _ in itp["inter"].get("bonds", []))
+                wantb = sorted([(i, i + 1) for i in range(1, n)] + [(n + i, n + i + 1) for i in range(1, n)])
+                if bonds != wantb:
+                    viols.append(dict(assertion="strands-separate", tags=["program"], message=f"-seq {names} -dsdna: bonds {bonds} expected {wantb}", case=case1, detail={}))
+                if n >= 2:
+                    keys.append(f"prog:{mode}:{seq}")
+    return dict(evals=evals, keys=keys, violations=viols, stats={"programs": evals}, sample={"program_level": True, "inputs": evals})
+
+
 def run_case(case):
+    if case.get("prog"):
+        if "seq" in case:
+            out = check_program(case)
+            out["violations"] = [v for v in out["violations"] if v["case"].get("seq") == case["seq"] and v["case"].get("mode") == case["mode"]]
+            return out
+        return check_program(case)
     if "seqs" not in case:  # replay of a single sub-case
         if case.get("reject"):
             v = check_reject(case["seq"], case["mode"], case["pos"], case["unk"])
